@@ -300,6 +300,19 @@ func (f *Font) encodeCharstrings() map[string]string {
 	return charStrings
 }
 
+// headerText makes a string safe for use inside the first comment line of
+// the file: a line break there would end the comment and the rest of the
+// string would be executed as PostScript code.
+func headerText(s string) string {
+	b := []byte(s)
+	for i, c := range b {
+		if c < 0x20 || c == 0x7f {
+			b[i] = ' '
+		}
+	}
+	return string(b)
+}
+
 func writeEncoding(encoding []string, glyphs map[string]string) string {
 	if len(encoding) != 256 {
 		return ""
@@ -350,8 +363,9 @@ var tmpl = template.Must(template.New("type1").Funcs(template.FuncMap{
 		return x.PS()
 	},
 	"E": writeEncoding,
+	"H": headerText,
 }).Parse(`{{define "SectionA" -}}
-%!FontType1-1.1: {{.FontName}} {{.Version}}
+%!FontType1-1.1: {{.FontName}} {{.Version|H}}
 {{if not .CreationDate.IsZero}}%%CreationDate: {{.CreationDate.Format "2006-01-02 15:04:05 -0700 MST"}}
 {{end -}}
 10 dict begin
